@@ -19,6 +19,7 @@ import (
 	"fmt"
 	"go/ast"
 	"go/constant"
+	"go/token"
 	"go/types"
 	"sort"
 	"strings"
@@ -289,6 +290,7 @@ func checkC04(w *World, r *Report) {
 
 	checkWriteString(w, r)
 	checkVerbatim(w, r, tokenT, textKind)
+	checkTokenValuesNeverGrow(w, r)
 }
 
 func onlyDebugRefs(v ssa.Value) bool {
@@ -560,4 +562,66 @@ func (w *World) exceptionForPart(fn *ssa.Function, table map[string]string) (str
 		return table[r] + " (in " + ssaName(fn) + ", a part of " + r + ")", true
 	}
 	return "", false
+}
+
+// checkTokenValuesNeverGrow — R04.6: a token's value is one contiguous piece of the source.
+// Every store into Token.Value is classified: the value handed to the constructor/AddToken
+// (a parameter, a slice of the source, a constant pattern) or a shortened form of the value
+// already there (the whitespace-control trims).  A value that is a string concatenation merges
+// pieces that the tokenizer emitted separately — the escaped delimiter `\{{` is a token of its
+// own precisely so that no text node ever holds a complete `{{ … }}`, which the macro call
+// would interpolate.
+func checkTokenValuesNeverGrow(w *World, r *Report) {
+	n := 0
+	var concat func(v ssa.Value, seen map[ssa.Value]bool) bool
+	concat = func(v ssa.Value, seen map[ssa.Value]bool) bool {
+		v = unspill(v)
+		if seen[v] {
+			return false
+		}
+		seen[v] = true
+		switch x := v.(type) {
+		case *ssa.BinOp:
+			if b, ok := x.Type().Underlying().(*types.Basic); ok && b.Info()&types.IsString != 0 && x.Op == token.ADD {
+				return true
+			}
+		case *ssa.Phi:
+			for _, e := range x.Edges {
+				if concat(e, seen) {
+					return true
+				}
+			}
+		case *ssa.Call:
+			if g := x.Call.StaticCallee(); g != nil {
+				switch g.String() {
+				case "strings.Join", "fmt.Sprintf", "fmt.Sprint", "(*strings.Builder).String", "(*bytes.Buffer).String", "strings.Repeat":
+					return true
+				}
+			}
+		}
+		return false
+	}
+	for _, fn := range w.pkgFuncs() {
+		instrsOf(fn, func(in ssa.Instruction) {
+			st, ok := in.(*ssa.Store)
+			if !ok {
+				return
+			}
+			fa, ok := st.Addr.(*ssa.FieldAddr)
+			if !ok {
+				return
+			}
+			if t, f := fieldOfAddr(fa); t != "Token" || f != "Value" {
+				return
+			}
+			n++
+			construct := "stored token value is one piece of source"
+			if concat(st.Val, map[ssa.Value]bool{}) {
+				r.bad("R04.6", ssaName(fn), construct, w.posOf(in.Pos()), "a token's value is built by concatenation: pieces the tokenizer emits separately (text before an escaped delimiter, the delimiter, the text after it) become one token and one text node, which can then hold a complete `{{ … }}` that the macro call interpolates — escaped literal text is evaluated")
+			} else {
+				r.ok("R04.6", ssaName(fn), construct, w.posOf(in.Pos()), "parameter, source slice, constant or trimmed value", false)
+			}
+		})
+	}
+	r.floor("stores into Token.Value", n, 3)
 }
